@@ -96,6 +96,9 @@ Definition check_session (hist : list obj) (wildtext : bool) (snap1 : list obj) 
       let '(s2, oks) := load_forms empty_session ms1 in
       let ms2 := snapshot s2 in
       if load_unmodelled empty_session ms1 then 0%N else
+      (* a function that calls a later-named user function or macro is reloaded through the evaluator's forward
+         reference placeholder, which the model does not describe [C19-snapshot-forward-reference] *)
+      if negb (forallb (calls_ok (s_funs s)) (s_funs s)) then 0%N else
       let agree := objs_eqb ms1 snap1 && bools_eqb oks loadok && objs_eqb ms2 snap2 in
       let g := sess_ok s && docs_ok s in
       let obs_ok := forallb (fun b => b) loadok && objs_eqb snap2 snap1 && textsame && probesame in
@@ -144,7 +147,7 @@ Definition session_skipped (cs : list case) : N :=
      | SCase hist wildtext _ _ _ _ _ =>
          wildtext || match run empty_session hist with
                      | Err EUnmodelled => true
-                     | Ok s => load_unmodelled empty_session (snapshot s)
+                     | Ok s => load_unmodelled empty_session (snapshot s) || negb (forallb (calls_ok (s_funs s)) (s_funs s))
                      | _ => false
                      end
      | _ => false end) cs)).
